@@ -1,6 +1,6 @@
-\* exhaustive: one view, EVERY selector (7 name selectors x 3 units x 18 meter selectors) x every instrument
+\* exhaustive: one view, EVERY selector (7 name selectors x 3 units x 27 meter selectors) x every instrument
 CONSTANTS
-  TypeSet <- Types3   PatSet <- PatsAll   UnitSelSet <- UnitSelAll   MSelSet <- MSelsAll   ShapeSet <- Shape1
+  TypeSet <- Types2   PatSet <- PatsAll   UnitSelSet <- UnitSelAll   MSelSet <- MSelsAll   ShapeSet <- Shape1
   INameSet <- INamesAll   IUnitSet <- IUnitsAll   MeterSet <- MetersAll   AttrSet <- Attrs1
   MaxViews = 1  MaxInst = 1  Hist = FALSE
 INIT Init
